@@ -145,30 +145,24 @@ impl Store {
     where
         F: FnMut(Ptr) -> Result<(), E>,
     {
-        let mut len = self.ids.len();
-        let mut i = 0;
+        // The callback may release streams other than the one it is called
+        // with (e.g. a promised stream together with its parent), so iterate
+        // over a snapshot of the keys and skip those that are gone.
+        let keys: Vec<Key> = self
+            .ids
+            .iter()
+            .map(|(stream_id, index)| Key {
+                index: *index,
+                stream_id: *stream_id,
+            })
+            .collect();
 
-        while i < len {
-            // Get the key by index, this makes the borrow checker happy
-            let (stream_id, index) = {
-                let entry = self.ids.get_index(i).unwrap();
-                (*entry.0, *entry.1)
-            };
-
-            f(Ptr {
-                key: Key { index, stream_id },
-                store: self,
-            })?;
-
-            // TODO: This logic probably could be better...
-            let new_len = self.ids.len();
-
-            if new_len < len {
-                debug_assert!(new_len == len - 1);
-                len -= 1;
-            } else {
-                i += 1;
+        for key in keys {
+            if self.ids.get(&key.stream_id) != Some(&key.index) {
+                continue;
             }
+
+            f(Ptr { key, store: self })?;
         }
 
         Ok(())
